@@ -172,6 +172,7 @@ type RigS struct {
 	faultsAtStart      int
 	storeFaultsAtStart int
 	deletedAt          map[string]int
+	bgWriteStep        map[string]int // task -> step of the last write of its record made while no request on it was in flight
 }
 
 func (r *RigS) gate(kind string) Gate {
@@ -803,6 +804,14 @@ func (r *RigS) noteStoreWrite(key string) {
 			}
 		}
 	}
+	if id != "" && (strings.Contains(key, ":put:") || strings.Contains(key, "exec:INSERT INTO task_info:")) && !(r.opBusy && r.st.InFlight >= 0 && r.sc.Ops[r.st.InFlight].Task == id) {
+		// the record of a task is written while no request on that task is in flight: a transition the service makes on
+		// its own (a pause triggered by a failure)
+		if r.bgWriteStep == nil {
+			r.bgWriteStep = map[string]int{}
+		}
+		r.bgWriteStep[id] = r.s.Step
+	}
 	if id != "" && (strings.Contains(key, ":put:") || strings.Contains(key, "exec:INSERT INTO task_info:")) && r.opBusy && r.st.InFlight >= 0 && r.sc.Ops[r.st.InFlight].Task == id {
 		// the request's own writes: create 2 (record, state), pause / resume 1; anything beyond that is a background
 		// transition (a pause triggered by a failure) of the same task running concurrently with the request
@@ -838,12 +847,14 @@ func (r *RigS) noteStoreWrite(key string) {
 // noteOverlap: the record of another task is being rewritten (a pause triggered by a failure - whether or not the store
 // accepts the write) while a request is in flight: the two transitions share the per-downstream resources and are not serialised.
 func (r *RigS) noteOverlap(key string) {
-	i := strings.Index(key, "task_info/")
-	if i < 0 || !(strings.Contains(key, ":put:") || strings.Contains(key, "exec:INSERT INTO task_info:")) {
+	// (the single-record read that opens the read-modify-write of a state update counts too: it may fail, and the
+	// transition then happens in memory only)
+	i := strings.LastIndex(key, "task_info")
+	if i < 0 || i+len("task_info")+1 > len(key) || !(strings.Contains(key, ":put:") || strings.Contains(key, "exec:INSERT INTO task_info:") || strings.Contains(key, ":get:") || strings.Contains(key, "query:")) {
 		return
 	}
-	id := key[i+len("task_info/"):]
-	if j := strings.IndexAny(id, ",# "); j >= 0 {
+	id := key[i+len("task_info")+1:]
+	if j := strings.IndexAny(id, ",# /"); j >= 0 {
 		id = id[:j]
 	}
 	if id != "" && r.opBusy && r.st.InFlight >= 0 && r.sc.Ops[r.st.InFlight].Task != id && r.sc.Ops[r.st.InFlight].Task != "" {
@@ -1136,6 +1147,21 @@ func (r *RigS) run() {
 				r.st.Ambiguous[r.sc.Ops[r.st.InFlight].Task] = true
 			}
 		}
+	}
+	// a parked call whose caller's deadline passes (the scheduler let simulated time go by) is a slow external party: for
+	// the service it is the same as an error before the call was applied, and it counts as an injected fault of that kind
+	s.OnCtxDone = func(c *Call) {
+		stat := map[string]string{"store": "fault:store_err_before", "tq": "fault:tq_err", "ddl": "fault:ddl_reject_before", "cat": "fault:cat_slow", "reg": "fault:reg_slow"}[c.Kind]
+		if stat == "" {
+			return
+		}
+		s.Stat(stat)
+		s.Stat("fault:slow_" + c.Kind)
+		r.mu.Lock()
+		if r.opBusy {
+			r.opFaults++
+		}
+		r.mu.Unlock()
 	}
 	r.build()
 	if r.plan.Incarnation == 0 {
